@@ -71,3 +71,36 @@ Example c12_nonvacuous :
   parse C02.ex_g C02.ex_T false 20 [1; 1] = Err 1 [2; 3] /\ has_actions_b C02.ex_T = true /\
   viable_b C02.ex_g C02.ex_T = true /\ complete_b C02.ex_g C02.ex_T = true.
 Proof. vm_compute. repeat split; reflexivity. Qed.
+
+(* ------------------------------------------------------------------ *)
+(* The GLR side at the level of the TABLE (Model/NLR.v, the nondeterministic LR
+   machine over the multi-action right-nulled table; [nreach]: a prefix of a run).
+   For every table passing sound_rn_b, complete_rn_b and viable_b (evaluated on
+   the REAL LALR_RN tables, gen/c12.py): the token counts some run can reach are
+   EXACTLY the lengths of the viable prefixes of the input.  So no head of a GLR
+   parser following the table gets past a non-viable prefix (no late detection)
+   and some head consumes every viable prefix (no early death): the furthest
+   frontier is the first token that cannot continue any sentence.
+   NOT proved: that glr/parser.rs explores the runs of its table (decided by the
+   Earley oracle on the real parser's error positions). *)
+From RV Require Import Model.NLR Spec.ValidatorsRN Proofs.ViableRN.
+
+Theorem glr_heads_viable : forall g T partial w c,
+  wf_grammar_b g = true -> sound_rn_b g T = true -> viable_b g T = true ->
+  nreach g T partial (init 0 w) c -> exists v, sentence g (firstn (c_pos c) w ++ v).
+Proof. exact nlr_prefix_viable_top. Qed.
+Print Assumptions glr_heads_viable.
+
+Theorem glr_viable_prefix_reached : forall g T w k v,
+  wf_grammar_b g = true -> complete_rn_b g T = true ->
+  k <= length w -> sentence g (firstn k w ++ v) ->
+  exists c, nreach g T false (init 0 w) c /\ c_pos c = k.
+Proof. exact nlr_viable_reached_top. Qed.
+Print Assumptions glr_viable_prefix_reached.
+
+Theorem glr_positions_exact : forall g T w k,
+  wf_grammar_b g = true -> sound_rn_b g T = true -> complete_rn_b g T = true -> viable_b g T = true ->
+  ((exists c, nreach g T false (init 0 w) c /\ c_pos c = k) <->
+   (k <= length w /\ exists v, sentence g (firstn k w ++ v))).
+Proof. exact nlr_positions_exact. Qed.
+Print Assumptions glr_positions_exact.
